@@ -23,9 +23,11 @@ HASH_SEEDS = {"quick": [0, 1], "thorough": [0, 1, 2]}
 
 @lru_cache(maxsize=None)
 def _universe(tier):
+    # five-node DAGs are needed for a pair that has both a one-node and a two-node separator of other nodes
+    dags5 = [g for g in enum_O(5, max_edges=5) if not g.bi and len(g.di) >= 4]
     if tier == "quick":
-        return [g for n in (1, 2, 3) for g in enum_L(n)] + list(enum_O(4))
-    return [g for n in (1, 2, 3, 4) for g in enum_L(n)] + list(enum_O(5, max_edges=4))
+        return [g for n in (1, 2, 3) for g in enum_L(n)] + list(enum_O(4)) + dags5
+    return [g for n in (1, 2, 3, 4) for g in enum_L(n)] + list(enum_O(5, max_edges=4)) + [g for g in dags5 if len(g.di) == 5]
 
 
 def shards(tier):
@@ -41,7 +43,7 @@ def describe(tier):
             if tier == "quick"
             else "graphs: L(1..4) all labelled ADMGs + O(5, <=4 edges)"
         )
-        + "; size limits k in {None, 0..n-2, n}; variants: default (topological) policy, len-lex policy via minimal(), "
+        + " + name-ordered five-node DAGs with 4-5 edges; size limits k in {None, 0..n-2, n}; variants: default (topological) policy, len-lex policy via minimal(), "
         "return_all=True, len-lex policy with return_all on the graph renamed to names of unequal length; PYTHONHASHSEED in "
         + str(HASH_SEEDS[tier])
         + (" (seeds other than 0: graphs up to 3 nodes and four-node graphs up to 3 edges)" if tier == "quick" else ""),
